@@ -149,4 +149,23 @@ theorem C18_source_skeletons_2 :
     Gen.Skel.fn_WritePosMapTo = Expected.Skel.fn_WritePosMapTo :=
   ⟨rfl, rfl, rfl, rfl, rfl, rfl, rfl, rfl, rfl, rfl, rfl, rfl, rfl, rfl⟩
 
+/-- Every stream frame reads the fields it writes — facts proved by `decide` about the skeletons
+    of the frame codecs regenerated from litefs.go: for the LTX, high-water-mark, hand-off,
+    heartbeat and drop frames the reader makes as many fixed-size reads (`binary.Read`) as the
+    writer makes fixed-size writes (`binary.Write`), and as many variable-length reads
+    (`internal.ReadBytes`) as the writer makes raw writes (`w.Write`). -/
+theorem C18_frames_read_the_fields_they_write :
+    let n (sk : List (String × String)) (c : String) := (sk.filter (· == ("call", c))).length
+    n Gen.Skel.LTXStreamFrame_ReadFrom "binary.Read" = n Gen.Skel.LTXStreamFrame_WriteTo "binary.Write" ∧
+    n Gen.Skel.LTXStreamFrame_ReadFrom "internal.ReadBytes" = n Gen.Skel.LTXStreamFrame_WriteTo "w.Write" ∧
+    n Gen.Skel.HWMStreamFrame_ReadFrom "binary.Read" = n Gen.Skel.HWMStreamFrame_WriteTo "binary.Write" ∧
+    n Gen.Skel.HWMStreamFrame_ReadFrom "internal.ReadBytes" = n Gen.Skel.HWMStreamFrame_WriteTo "w.Write" ∧
+    n Gen.Skel.HandoffStreamFrame_ReadFrom "binary.Read" = n Gen.Skel.HandoffStreamFrame_WriteTo "binary.Write" ∧
+    n Gen.Skel.HandoffStreamFrame_ReadFrom "internal.ReadBytes" = n Gen.Skel.HandoffStreamFrame_WriteTo "w.Write" ∧
+    n Gen.Skel.HeartbeatStreamFrame_ReadFrom "binary.Read" = n Gen.Skel.HeartbeatStreamFrame_WriteTo "binary.Write" ∧
+    n Gen.Skel.DropDBStreamFrame_ReadFrom "binary.Read" = n Gen.Skel.DropDBStreamFrame_WriteTo "binary.Write" ∧
+    n Gen.Skel.DropDBStreamFrame_ReadFrom "internal.ReadBytes" = n Gen.Skel.DropDBStreamFrame_WriteTo "w.Write" ∧
+    0 < n Gen.Skel.LTXStreamFrame_ReadFrom "binary.Read" ∧ 0 < n Gen.Skel.HeartbeatStreamFrame_ReadFrom "binary.Read" := by
+  decide
+
 end LiteFSVerif.C18
